@@ -387,7 +387,7 @@ def compute_gradient_and_dynamics(
                 current_node, current_edges, second_half_prop.T)
 
             current_node, current_edges = _apply_pt_mpos(
-                current_node, current_edges, pt_mpos)
+                current_node, current_edges, pt_mpos, reverse=True)
 
             current_node, current_edges = _apply_system_superoperator(
                 current_node, current_edges, first_half_prop.T)
@@ -402,7 +402,8 @@ def compute_gradient_and_dynamics(
 
             forwardprop_tensor = forwardprop_derivs_list[step-1]
 
-            backprop_tensor =  tn.replicate_nodes([current_node])[0]
+            node_dict, edge_dict = tn.copy([current_node])
+            backprop_tensor = node_dict[current_node]
 
             pt_mpos = mpo_list[step-1]
 
@@ -411,7 +412,7 @@ def compute_gradient_and_dynamics(
                 forwardprop_tensor,fwd_edges,pt_mpos)
 
             for i, _ in enumerate(pt_mpos):
-                fwd_edges[i] ^ backprop_tensor[i]
+                fwd_edges[i] ^ edge_dict[current_edges[i]]
 
             deriv = deriv_forwardprop_tensor @ backprop_tensor
 
